@@ -38,6 +38,7 @@ def run(rep, tier):
     # add_triangle / add_rect / add_polygon dispatch degenerate shapes on HasDimensions (tables shared with C01)
     from . import dims
     dims.run(rep, F, "R6.7")
+    centroid_tables(rep, F)
     from . import gt_tables
     gt_tables.run(rep, F, "R6.8", select={"Line::determinant", "Rect::center", "line_euclidean_length"})
 
@@ -373,3 +374,115 @@ def weights(rep, F):
             rep.bad("R6.6", "weight:" + name, "%s adds a %s part with weight %s: the weight must be the non-negative measure of that dimension (a signed area makes a clockwise "
                     "part count negatively against the other members of a collection)" % (name, dim.split("::")[-1][:-2], w[:80]), where=fn.loc())
     rep.floor("R6.6", "add_centroid sites", len(seen), 5)
+
+
+def centroid_tables(rep, F):
+    """R6.9: Centroid::centroid of the basic types on witnesses, through the extracted path tables (the whole CentroidOperation inlined, exact
+    unrolling): Point, Line, Rect, Triangle, LineString (0..3 coordinates), Polygon (triangle ring, possibly degenerate), MultiPoint (0..2).
+    Reference = the property's definition: the area-weighted centre of mass if the shape has positive area, else the length-weighted mean
+    of the segment midpoints, else the mean of the points; None exactly for empty input."""
+    import itertools
+    import math
+    from ..numeval import NumEval
+    from ..evalterm import NoModel, Enum
+    rep.rule("R6.9", "Centroid::centroid of Point, Line, Rect, Triangle, LineString (0..3 coordinates), Polygon (one triangular ring) and MultiPoint (0..2) on grid witnesses, degenerate ones included: None exactly for empty input, otherwise the area-weighted centre of mass, else the length-weighted mean of segment midpoints, else the mean of the points")
+    CT = "geo::algorithm::centroid::Centroid"
+    GT = "geo_types::geometry::"
+    grid = [(float(x), float(y)) for x in (0, 1, 3) for y in (0, 2, 3)]
+
+    def vec(items):
+        return ("call", "vec!", (("array", tuple(items)),))
+
+    def C(i):
+        return ("opaque", "c%d" % i)
+
+    def area2(ring):
+        return sum(ring[i][0] * ring[i + 1][1] - ring[i + 1][0] * ring[i][1] for i in range(len(ring) - 1))
+
+    def linear_centroid(segs):
+        tot = sum(math.hypot(b[0] - a[0], b[1] - a[1]) for a, b in segs)
+        if tot == 0:
+            return None
+        return (sum(math.hypot(b[0] - a[0], b[1] - a[1]) * (a[0] + b[0]) / 2 for a, b in segs) / tot,
+                sum(math.hypot(b[0] - a[0], b[1] - a[1]) * (a[1] + b[1]) / 2 for a, b in segs) / tot)
+
+    def mean(ps):
+        return (sum(p[0] for p in ps) / len(ps), sum(p[1] for p in ps) / len(ps)) if ps else None
+
+    def ref_ring(ring):
+        """closed ring as an areal shape"""
+        a2 = area2(ring)
+        if a2 != 0:
+            cx = sum((ring[i][0] + ring[i + 1][0]) * (ring[i][0] * ring[i + 1][1] - ring[i + 1][0] * ring[i][1]) for i in range(len(ring) - 1)) / (3 * a2)
+            cy = sum((ring[i][1] + ring[i + 1][1]) * (ring[i][0] * ring[i + 1][1] - ring[i + 1][0] * ring[i][1]) for i in range(len(ring) - 1)) / (3 * a2)
+            return (cx, cy)
+        segs = [(ring[i], ring[i + 1]) for i in range(len(ring) - 1)]
+        return linear_centroid(segs) or mean(ring[:1])
+
+    def ref_ls(cs):
+        if not cs:
+            return None
+        segs = [(cs[i], cs[i + 1]) for i in range(len(cs) - 1)]
+        return linear_centroid(segs) or cs[0]
+    LS = GT + "line_string::LineString"
+    shapes = [
+        ("Point", "point::Point", ("adt", GT + "point::Point", "Point", (C(0),)), 1, grid, lambda cs: cs[0]),
+        ("Line", "line::Line", ("adt", GT + "line::Line", "Line", (C(0), C(1))), 2, grid, lambda cs: ((cs[0][0] + cs[1][0]) / 2, (cs[0][1] + cs[1][1]) / 2)),
+        ("Triangle", "triangle::Triangle", ("adt", GT + "triangle::Triangle", "Triangle", (C(0), C(1), C(2))), 3, grid[::2] + [grid[1]], lambda cs: ref_ring(list(cs) + [cs[0]])),
+        ("Polygon", "polygon::Polygon", ("adt", GT + "polygon::Polygon", "Polygon", (("adt", LS, "LineString", (vec([C(0), C(1), C(2), C(0)]),)), vec([]))), 3, grid[::2] + [grid[1]],
+         lambda cs: ref_ring(list(cs) + [cs[0]])),
+    ]
+    for n in range(0, 4):
+        shapes.append(("LineString/%d" % n, "line_string::LineString", ("adt", LS, "LineString", (vec([C(i) for i in range(n)]),)), n, grid if n < 3 else grid[::2] + [grid[1]], ref_ls))
+    for n in range(0, 3):
+        shapes.append(("MultiPoint/%d" % n, "multi_point::MultiPoint", ("adt", GT + "multi_point::MultiPoint", "MultiPoint", (vec([("adt", GT + "point::Point", "Point", (C(i),)) for i in range(n)]),)),
+                       n, grid, lambda cs: mean(list(cs))))
+    n_ok = 0
+
+    def dec(v):
+        if isinstance(v, Enum):
+            if v.variant == "None":
+                return None
+            v = v.payload[0]
+        if isinstance(v, dict) and "0" in v and isinstance(v["0"], dict):
+            v = v["0"]
+        return (float(v["x"]), float(v["y"]))
+
+    def table(key, ty, arg, cases, ref, env_of):
+        nonlocal n_ok
+        try:
+            fn = F.impl_method(CT, r"^%s%s<T>$" % (GT, ty), None, "centroid", crates=("geo",))
+            ex = Symex(F, concrete_iters=True, loop_bound=10, inline_crates=("geo", "geo_types"), max_depth=16, max_paths=20000, budget_s=60)
+            paths = [p for p in ex.run(fn, args=[("&", arg)]) if p.kind != "cut"]
+        except (KeyError, Unanalysable) as e:
+            rep.bad("R6.9", "centroid:%s:unanalysable" % key, str(e))
+            return
+        k = 0
+        for cs in cases:
+            ev = NumEval(F, env_of(cs))
+            try:
+                hit = ev.select_path(paths)
+                if len(hit) != 1 or hit[0].kind != "ret":
+                    rep.bad("R6.9", "centroid:%s" % key, "%s %s selects %s" % (key, list(cs), [h.kind for h in hit]), where=fn.loc())
+                    return
+                got = dec(ev.ev(hit[0].ret))
+            except (NoModel, TypeError, KeyError, ValueError, ZeroDivisionError) as e:
+                rep.bad("R6.9", "centroid:%s:non-abstractable" % key, "%s cannot be evaluated on %s: %s" % (key, list(cs), e), where=fn.loc())
+                return
+            want = ref(cs)
+            k += 1
+            ok = (got is None and want is None) or (got is not None and want is not None and abs(got[0] - want[0]) <= 1e-9 and abs(got[1] - want[1]) <= 1e-9)
+            if not ok:
+                rep.bad("R6.9", "centroid:%s" % key, "centroid(%s %s) = %s, the centre of mass is %s" % (key, list(cs), got, want), where=fn.loc())
+                return
+        n_ok += 1
+        rep.ok("R6.9", "centroid:%s[%d witnesses]" % (key, k))
+
+    def env(cs):
+        return {C(i): {"x": c[0], "y": c[1]} for i, c in enumerate(cs)}
+    for key, ty, arg, n, dom, ref in shapes:
+        table(key, ty, arg, itertools.product(dom, repeat=n), ref, env)
+    # Rect: min <= max
+    rects = [(a, b) for a in grid for b in grid if a[0] <= b[0] and a[1] <= b[1]]
+    table("Rect", "rect::Rect", ("adt", GT + "rect::Rect", "Rect", (C(0), C(1))), rects, lambda cs: ((cs[0][0] + cs[1][0]) / 2, (cs[0][1] + cs[1][1]) / 2), env)
+    rep.floor("R6.9", "centroid tables", n_ok, 12)
